@@ -32,7 +32,7 @@ func scalarName(t d.FieldDescriptorProto_Type) string {
 	return strings.Title(strings.ToLower(strings.TrimPrefix(t.String(), "TYPE_")))
 }
 
-var allFamilies = []string{"rt", "from", "echo", "refresh"}
+var allFamilies = []string{"rt", "from", "echo", "refresh", "schema"}
 
 func programs() []*Program {
 	var ps []*Program
@@ -188,6 +188,30 @@ func programs() []*Program {
 		Cfg: func() *Config {
 			c := baseConfig("A", "B")
 			c.ExcludeFields = []string{"A.Y.Z.Flag", "Shared.Num"}
+			return c
+		}})
+	add(&Program{Name: "P-flags", Quick: true,
+		File: func() *FileSpec {
+			sub := msg("FlSub", nil, fld("X", TString).doc(" X of the sub message\n"), fld("Y", TString)).doc(" FlSub is nested\n")
+			fl := msg("Fl", nil,
+				fld("A", TString).doc(" A is required\n and validated\n"),
+				fld("B", TInt64).doc("B is computed"),
+				fld("C", TBool).doc("\n\n C is sensitive.  \r\n   Second line\twith tab \n\n"),
+				mfld("Sub", "FlSub").doc(" Sub message\n"), mfld("L", "FlSub").rep(), fld("Plain", TString))
+			return &FileSpec{Name: "p.proto", Msgs: []*M{sub, fl}}
+		},
+		Cfg: func() *Config {
+			c := baseConfig("Fl")
+			c.RequiredFields = []string{"Fl.A", "FlSub.X"}
+			c.ComputedFields = []string{"Fl.B", "Fl.Sub.Y", "Fl.C"}
+			c.SensitiveFields = []string{"Fl.C", "FlSub.Y"}
+			c.UseStateForUnknownByDefault = true
+			c.Validators = map[string][]string{"Fl.A": {"UseMockValidator()"}, "FlSub.X": {"UseMockValidator()", "UseMockValidator()"}}
+			c.PlanModifiers = map[string][]string{"Fl.C": {"github.com/hashicorp/terraform-plugin-framework/tfsdk.RequiresReplace()"}}
+			c.InjectedFields = map[string][]Injected{
+				"Fl":     {{Name: "id", Type: "github.com/hashicorp/terraform-plugin-framework/types.StringType", Computed: true}},
+				"Fl.Sub": {{Name: "extra", Type: "github.com/hashicorp/terraform-plugin-framework/types.Int64Type", Optional: true, Validators: []string{"UseMockValidator()"}}},
+			}
 			return c
 		}})
 	return ps
